@@ -40,9 +40,11 @@ Definition pairs (cs : list call) : list (N * bytes) :=
    (dual_proof_no_fork) — sessions against servers whose states all come from well-formed histories
    are consistent.
 
-   NOT proved (statements kept here; they need the position-EXACT soundness of
-   ahtree.VerifyInclusion / VerifyConsistency, which coq/Merkle proves in the membership / prefix
-   forms only):
+   NOT proved (statements kept here; against an arbitrary server the roots inside the headers are
+   not known to be roots of genuine trees, so the soundness theorems of coq/Merkle — all of the form
+   "accepted against the root of a genuine tree => ..." — do not apply; what is needed is the
+   agreement of two acceptances against ONE unknown root, for VerifyInclusion, VerifyLastInclusion
+   and VerifyConsistency together, which has not been developed):
      session_consistency_v1_partial : for verify_dual_proof_fixed, the full statement above restricted
        to sessions in which no call has  source.BlTxID < target.BlTxID < sourceTxID  (what every
        header a current server emits satisfies: BlTxID = ID - 1);
